@@ -21,8 +21,8 @@ void verif_random_reset(uint32_t);
 
 const char *verif_property = "C09";
 const char *verif_class_names[] = { "three_pending_delete_nonhead", "duration_beyond_31bit_ms", "duration_beyond_32bit_ms", "duration_near_2_63", "duration_near_2_64",
-	"zero_duration", "early_wakeup", "clock_tick", "job_throttle_seen", "delete_from_callback", "query_pending", "query_after_fire", "many_pending", "heap_profile", NULL };
-enum { K_NONHEAD, K_31, K_32, K_63, K_64, K_ZERO, K_EARLYWAKE, K_TICK, K_THROTTLE, K_DELCB, K_QPEND, K_QFIRED, K_MANY, K_HEAP };
+	"zero_duration", "early_wakeup", "clock_tick", "job_throttle_seen", "delete_from_callback", "query_pending", "query_after_fire", "many_pending", "heap_profile", "self_removing_descriptor", NULL };
+enum { K_NONHEAD, K_31, K_32, K_63, K_64, K_ZERO, K_EARLYWAKE, K_TICK, K_THROTTLE, K_DELCB, K_QPEND, K_QFIRED, K_MANY, K_HEAP, K_FD };
 const char *verif_rule =
 	"case = clock behaviour (tick per read 0/1us/100us, early wake-ups) + a history of timer adds with durations from {0, 1 ns, sub-ms, ms-scale, 2^31-1 ms +-1, 2^32 ms +-1, 2^63 ns, 2^64-1 ns}, "
 	"deletes (any handle), expire_time_remaining / is_running queries and jobs, from outside the loop and from inside callbacks; up to 30 timers pending at once; "
@@ -70,11 +70,23 @@ static void timer_cb(void *data)
 	m.st = 1;
 	in_cb = true; do_actions(vr_u8(&V) % 3); in_cb = false;
 }
+struct fdsrc { int p[2]; int how; };
+static int32_t fd_cb(int32_t fd, int32_t revents, void *data)
+{
+	(void)revents;
+	fdsrc *f = (fdsrc *)data; char b; int rc = 0;
+	if (read(fd, &b, 1) != 1) {}
+	jobs_waiting--;
+	VLOG(R, " [it %d] one-shot descriptor %d ready\n", iterations, fd);
+	if (f->how == 2) rc = -1; else if (qb_loop_poll_del(L, fd) != 0) VFAIL(R, "poll-del-refused", "qb_loop_poll_del of a registered descriptor failed inside its own callback");
+	close(f->p[0]); close(f->p[1]); delete f;
+	in_cb = true; do_actions(vr_u8(&V) % 2); in_cb = false;
+	return rc;
+}
 static void job_cb(void *data) { (void)data; jobs_waiting--; in_cb = true; do_actions(vr_u8(&V) % 2); in_cb = false; }
 
 static void hook(int n_ready, int timeout_ms)
 {
-	(void)n_ready;
 	iterations++;
 	uint64_t now = vclock_mono(), due;
 	bool any = earliest_due(&due);
@@ -92,8 +104,9 @@ static void hook(int n_ready, int timeout_ms)
 	if (iterations > 4000) { if (!R->fail) VFAIL(R, "never-dispatched", "after %d iterations %d timer(s) are still pending", iterations, pending_count()); stop_called = 1; qb_loop_stop(L); return; }
 	if (!any && jobs_waiting <= 0 && timeout_ms < 0) { stop_called = 3; qb_loop_stop(L); return; }	/* idle: more operations from outside */
 	if (!short_pending() && jobs_waiting <= 0 && !winding_down) { stop_called = 3; qb_loop_stop(L); return; }	/* only far-away timers left */
-	/* sleep virtually */
-	if (timeout_ms > 0) {
+	/* sleep virtually (a ready descriptor ends the real epoll_wait at once) */
+	if (n_ready > 0) vclock_advance(20000);
+	else if (timeout_ms > 0) {
 		uint64_t adv = (uint64_t)timeout_ms * 1000000ULL;
 		if (early_wake && vr_u8(&V) % 3 == 0) { adv = adv / (2 + vr_u8(&V) % 3); VCLASS(R, K_EARLYWAKE); }
 		vclock_advance(adv ? adv : 1000);
@@ -179,6 +192,16 @@ static void do_actions(int n)
 				VCLASS(R, K_QFIRED);
 				if (run || rem) { VFAIL(R, "query-stale", "timer %d is %s but is_running=%d remaining=%llu", id, m.st == 1 ? "fired" : "deleted", run, (unsigned long long)rem); return; }
 			}
+		}
+		else if (k == 15) {			/* a one-shot descriptor: ready at once, its callback unregisters it (poll_del from inside its own dispatch, or a negative return) */
+			fdsrc *f = new fdsrc();
+			if (pipe(f->p) != 0) { delete f; continue; }
+			if (write(f->p[1], "x", 1) != 1) {}
+			f->how = arg % 3;
+			if (qb_loop_poll_add(L, (enum qb_loop_priority)((arg >> 2) % 3), f->p[0], POLLIN, f, fd_cb) != 0) { close(f->p[0]); close(f->p[1]); delete f; continue; }
+			jobs_waiting++;
+			VCLASS(R, K_FD);
+			VLOG(R, "      add one-shot descriptor (prio %u, leaves by %s)\n", (arg >> 2) % 3, f->how == 2 ? "negative return" : "qb_loop_poll_del in its callback");
 		}
 		else if (k <= 14) {			/* a job: triggers the 50 ms throttle when nothing else is due */
 			static int jt;
